@@ -2,7 +2,10 @@ module mltwist/verifh
 
 go 1.18
 
-require mltwist v0.0.0
+require (
+	mltwist v0.0.0
+	golang.org/x/sys v0.19.0
+)
 
 require golang.org/x/exp v0.0.0-20240404231335-c0f41cb1a7a0 // indirect
 
